@@ -5,7 +5,7 @@ base = json.load(open('/root/.vp/BASELINE.json'))
 props = [json.loads(l)['id'] for l in open('/verif/properties.jsonl')]
 SEQ_TEXT = ("Seeded single-client programs of the {fam} commands run step by step through the real executors (server.Manager.ExecCommand, in child "
             "processes that journal every command) and through an executable reference model written from the Redis command reference; the reply, the whole "
-            "keyspace dump and the structural self-check (verif hooks) are compared after every step; divergences are minimised and keyed by signature. "
+            "keyspace dump and the structural self-check (verif hooks) are compared after every step; about one step in 24 is not a command but puts a key past its deadline without reaping it (verif hook), after which every command must treat it as missing; divergences are minimised and keyed by signature. "
             "Held on the programs explored (quick: thousands, thorough: >=100k), not a proof.")
 SEQ_NOTE = ("Trusts the reference model (open corners of the reference are accepted either way or re-synchronised and counted), the verif-tagged "
             "dump/self-check hooks, and far-future deadlines so that no verdict depends on the clock.")
@@ -19,7 +19,11 @@ def chk(pid, text, note, tech, cat="exploration", thorough=True):
     if thorough:
         C[pid]["thorough_cmd"] = f"./check {pid} thorough"
 for pid, fam in [("C01","string and generic key"),("C09","list"),("C10","hash"),("C11","set"),("C12","sorted-set (plus AVL shape, height, balance, index<->members checks after every step)"),("C18","stream")]:
-    chk(pid, SEQ_TEXT.format(fam=fam), SEQ_NOTE, SEQ_TECH)
+    extra = ""
+    if pid == "C09":
+        extra = (" C09 also drives blocking pops against the real binary (each pushed element to exactly one popper, nil only at the timeout) and a queue that keeps running empty with producers, "
+                 "plain and blocking poppers, over TCP and in-process with the stripe-lock hook pausing before exclusive acquisitions: every acknowledged element is popped exactly once or left in the list.")
+    chk(pid, SEQ_TEXT.format(fam=fam) + extra, SEQ_NOTE, SEQ_TECH)
 chk("C17", "Bounded-exhaustive enumeration of every (pattern, key) pair in a length/alphabet box through the real util.PattenMatch under recover, compared with a "
     "three-valued reference matcher; seeded random long pairs for termination; KEYS on a populated in-process server including expired keys.",
     "Exhaustive only inside the stated box; pairs hinging on constructs the documented grammar leaves undefined only have to terminate without panic.",
